@@ -7,6 +7,8 @@
 (*          [t |-> "bool", b], [t |-> "str", s]                            *)
 (*          [t |-> "set", k, e]   homogeneous non-empty set, k = element   *)
 (*                                kind, e = set of values                  *)
+(*          [t |-> "type", s]     a data type used as an operand: no      *)
+(*                                operator but the attribute one applies   *)
 (*          [t |-> "err"]   the expression is invalid (must be rejected)   *)
 (*          [t |-> "skip"]  outside TLC's 32-bit arithmetic (not judged)   *)
 (* ASTs:    [op |-> "lit", v], [op |-> "un", o, a], [op |-> "bin", o, a, b] *)
@@ -31,6 +33,7 @@ Rat(n, d) ==
 IntV(n) == [t |-> "rat", n |-> n, d |-> 1]
 BoolV(b) == [t |-> "bool", b |-> b]
 StrV(s) == [t |-> "str", s |-> s]
+TypeV(s) == [t |-> "type", s |-> s]
 IsInt(v) == v.t = "rat" /\ v.d = 1
 Kind(v) == IF v.t = "set" THEN "set" ELSE v.t
 Bad(v) == v.t \in {"err", "skip"}
@@ -111,16 +114,24 @@ Un(o, a) ==
          [] o = "-" -> IF a.t = "rat" THEN Rat(0 - a.n, a.d) ELSE Err
          [] o = "+" -> IF a.t = "rat" THEN a ELSE Err
 
+\* a set of sets of one element kind, totally ordered by inclusion
+IsChain(E) == /\ \A x \in E, y \in E : x.k = y.k
+              /\ \A x \in E, y \in E : x.e \subseteq y.e \/ y.e \subseteq x.e
 Attr(a, n) ==
   IF Bad(a) THEN a
   ELSE IF a.t # "set" THEN Err
   ELSE CASE n = "count" -> IntV(Cardinality(a.e))
          \* min / max are determined by applying < / > to successive elements: a singleton needs no comparison, so it is
-         \* not judged for element kinds without an order; sets of sets are ordered only partially (not judged)
+         \* not judged for element kinds without an order; sets of sets are ordered by inclusion, which decides the
+         \* answer whenever the elements form a chain (otherwise not judged)
          [] n = "min" -> IF a.k = "rat" THEN CHOOSE x \in a.e : \A y \in a.e : RatCmp(x, y) <= 0
-                         ELSE IF a.k = "set" \/ Cardinality(a.e) = 1 THEN Skip ELSE Err
+                         ELSE IF Cardinality(a.e) = 1 THEN Skip
+                         ELSE IF a.k = "set" THEN (IF IsChain(a.e) THEN CHOOSE x \in a.e : \A y \in a.e : x.e \subseteq y.e ELSE Skip)
+                         ELSE Err
          [] n = "max" -> IF a.k = "rat" THEN CHOOSE x \in a.e : \A y \in a.e : RatCmp(x, y) >= 0
-                         ELSE IF a.k = "set" \/ Cardinality(a.e) = 1 THEN Skip ELSE Err
+                         ELSE IF Cardinality(a.e) = 1 THEN Skip
+                         ELSE IF a.k = "set" THEN (IF IsChain(a.e) THEN CHOOSE x \in a.e : \A y \in a.e : y.e \subseteq x.e ELSE Skip)
+                         ELSE Err
          [] OTHER -> Err
 
 RECURSIVE Eval(_)
